@@ -75,17 +75,51 @@ func checkC06Ubl(t *Toks) string {
 	if len(c.asset) != 32 || len(c.abf) != 32 || len(c.vbf) != 32 {
 		return "SKIP outside-quantifier"
 	}
+	tb := ubReadOracle(t)
 	b, where := ubBlindWithAPI(c)
 	if b == nil {
-		// the property is conditional on the library having produced the output
+		// the property is conditional on the range proof supporting the amount: when the real
+		// primitives, called with the arguments the wrappers are specified to pass (min-value
+		// rule, exp / minBits defaults, message, extra commitment), do produce a proof, the
+		// library has to produce the output too
+		if len(tb.sign) > 0 && tb.sign[0].res != nil {
+			return fail("blind-refused", fmt.Sprintf("%s:value=%x:script-len=%d:exp=%d:minbits=%d", where, c.value, len(c.script), c.exp, c.mb))
+		}
 		return "SKIP blind-" + where
 	}
 	r := ubLineRng(line, 6)
 	out := &transaction.TxOutput{Asset: b.ac, Value: b.vc, Script: c.script, Nonce: c.E, RangeProof: b.proof}
 
-	// nonce = SHA256(ECDH), symmetric in the two key pairs
-	if ref, ok := ubRefNonce(c.R, c.esk); ok && !bytes.Equal(ref, b.nonce[:]) {
-		return fail("nonce-hash", "NonceHash(R,esk)!=SHA256(SHA256(point))")
+	// nonce = SHA256(ECDH) with the real ECDH primitive (and an independent btcec reference)
+	var trueNonce []byte
+	if secret := ubPrimEcdh(c.R, c.esk); secret != nil {
+		h := sha256.Sum256(secret)
+		trueNonce = h[:]
+	}
+	if ref, ok := ubRefNonce(c.R, c.esk); ok && trueNonce != nil && !bytes.Equal(ref, trueNonce) {
+		return "SKIP ecdh-references-disagree"
+	}
+	if trueNonce != nil && !bytes.Equal(trueNonce, b.nonce[:]) {
+		// an output blinded (by anybody) for the true ECDH nonce must open with the recipient's key
+		var n32, v32 [32]byte
+		copy(n32[:], trueNonce)
+		copy(v32[:], c.vbf)
+		if p2, err := confidential.RangeProof(confidential.RangeProofArgs{Value: c.value, Nonce: n32,
+			Asset: append([]byte{}, c.asset...), AssetBlindingFactor: append([]byte{}, c.abf...), ValueBlindFactor: v32,
+			ValueCommit: b.vc, ScriptPubkey: c.script, Exp: c.exp, MinBits: c.mb}); err == nil {
+			o2 := &transaction.TxOutput{Asset: b.ac, Value: b.vc, Script: c.script, Nonce: c.E, RangeProof: p2}
+			rn, cls := ubUnblindGuard(func() (*confidential.UnblindOutputResult, error) {
+				return confidential.UnblindOutputWithNonce(ubCloneOut(o2), trueNonce)
+			})
+			if cls == "ok" && ubSameUnblinded(rn, c.value, c.asset, c.vbf, c.abf) {
+				if _, cls := ubUnblindGuard(func() (*confidential.UnblindOutputResult, error) {
+					return confidential.UnblindOutputWithKey(ubCloneOut(o2), c.rsk)
+				}); cls != "ok" {
+					return fail("roundtrip-true-nonce", "blinded-for-SHA256(ECDH):opens-with-the-nonce:"+cls+"-with-the-recipient-key")
+				}
+			}
+		}
+		return fail("nonce-hash", "NonceHash(R,esk)!=SHA256(ECDH(R,esk))")
 	}
 	n2, err := confidential.NonceHash(c.E, c.rsk)
 	if err != nil || n2 != b.nonce {
@@ -238,14 +272,21 @@ func checkC06Uiss(t *Toks) string {
 	if !ok {
 		return "SKIP ids"
 	}
+	tb := ubReadOracle(t)
 	avc, aproof, ok := ubBlindIssuanceAmountAPI(c.va, aid, c.vbfa, c.ka)
 	if !ok {
+		if len(tb.sign) > 0 && tb.sign[0].res != nil {
+			return fail("blind-refused", fmt.Sprintf("issuance-asset-amount:value=%x", c.va))
+		}
 		return "SKIP blind-asset"
 	}
 	tvc, tproof := []byte{0}, []byte(nil)
 	if c.hasToken {
 		tvc, tproof, ok = ubBlindIssuanceAmountAPI(c.vt, tid, c.vbft, c.kt)
 		if !ok {
+			if len(tb.sign) > 1 && tb.sign[1].res != nil {
+				return fail("blind-refused", fmt.Sprintf("issuance-token-amount:value=%x", c.vt))
+			}
 			return "SKIP blind-token"
 		}
 	}
